@@ -481,6 +481,12 @@ def gen_lexicon(rng, lmfver, lexid, lexver, profile=None, base=None, language=No
                 fr['senses'] = r.sample(local_sense_ids, r.randint(1, len(local_sense_ids)))
             frames.append(fr)
         lex['frames'] = frames
+        # both encodings side by side (valid): other senses point to an id-carrying frame via subcat
+        for fr in frames:
+            if fr.get('id'):
+                for s, _ in all_local_senses:
+                    if s['id'] not in (fr.get('senses') or []) and g.opt(0.4):
+                        s.setdefault('subcat', []).append(fr['id'])
 
     if entries:
         lex['entries'] = entries
